@@ -216,6 +216,79 @@ def pool_size(repo, chk):
                    'args.num_threads is used outside the Pool constructor: the computation (chunking, seeds, sampling) may depend on the worker count')
 
 
+    worker_count_flow(repo, chk)
+
+
+WORKER_COUNT_ATTRS = {'ncpus', 'nodes', '_processes', 'num_threads', 'n_jobs', 'max_workers', '_max_workers'}
+WORKER_COUNT_CALLS = {'os.cpu_count', 'multiprocessing.cpu_count', 'os.sched_getaffinity', 'psutil.cpu_count', 'pathos.helpers.cpu_count', 'numba.get_num_threads'}
+
+
+def worker_count_flow(repo, chk):
+    """C09.3b - nothing that is computed may depend on how many workers there are.  Every read of a worker count (pool.ncpus / .nodes,
+    args.num_threads, cpu_count()) is followed through local assignments; it may size the pool, be logged, or be a chunksize argument of the
+    pool's map.  Where it reaches the *data* (slice bounds, ranges, arithmetic): a partition of the work into len(work) // workers sized slices
+    drops the last len(work) % workers items (violated); any other use is left inconclusive (a partition that covers everything is harmless,
+    but this rule does not decide coverage)."""
+    n_reads = 0
+    for m in repo.modules.values():
+        for f in m.funcs.values():
+            par = None
+            tainted = set()
+            # names bound (directly or through arithmetic) from a worker count
+            def is_src(e):
+                if isinstance(e, ast.Attribute) and e.attr in WORKER_COUNT_ATTRS and isinstance(e.ctx, ast.Load):
+                    return True
+                if isinstance(e, ast.Call) and (m.dotted(e.func) or '') in WORKER_COUNT_CALLS:
+                    return True
+                return False
+
+            def carries(e):
+                return any(is_src(x) or (isinstance(x, ast.Name) and x.id in tainted) for x in ast.walk(e))
+            srcs = [n for n in own_nodes(f.node) if is_src(n)]
+            if not srcs:
+                continue
+            n_reads += len(srcs)
+            for _ in range(4):
+                for n in own_nodes(f.node):
+                    if isinstance(n, ast.Assign) and len(n.targets) == 1 and isinstance(n.targets[0], ast.Name) and carries(n.value):
+                        tainted.add(n.targets[0].id)
+            par = parents(f.node)
+            drops = None
+            data_use = None
+            for n in own_nodes(f.node):
+                if not (is_src(n) or (isinstance(n, ast.Name) and n.id in tainted and isinstance(n.ctx, ast.Load))):
+                    continue
+                up, cur = par.get(n), n
+                while up is not None and not isinstance(up, ast.stmt):
+                    if isinstance(up, ast.Call):
+                        d = (m.dotted(up.func) or '')
+                        if d.split('.')[-1] in ('Pool', 'ProcessingPool', 'ProcessPool', 'ThreadPool', 'ThreadPoolExecutor', 'ProcessPoolExecutor'):
+                            break
+                        if any(k.value is cur and k.arg in ('chunksize', 'nodes', 'ncpus', 'processes', 'max_workers') for k in up.keywords):
+                            break
+                    if isinstance(up, ast.BinOp) and isinstance(up.op, ast.FloorDiv) and up.right is cur and isinstance(up.left, ast.Call) and isinstance(up.left.func, ast.Name) and up.left.func.id == 'len':
+                        drops = drops or up
+                    if isinstance(up, (ast.Slice, ast.BinOp, ast.Compare)) or (isinstance(up, ast.Call) and isinstance(up.func, ast.Name) and up.func.id in ('range', 'max', 'min', 'int', 'divmod')):
+                        data_use = data_use or n
+                    cur, up = up, par.get(up)
+                else:
+                    continue
+            from ..match import is_noise_stmt
+            sliced = any(isinstance(x, ast.Slice) and any(isinstance(y, ast.Name) and y.id in tainted for y in ast.walk(x)) for x in own_nodes(f.node))
+            if drops is not None and sliced:
+                chk.bad('C09.3b', 'R10', f.site(drops), ast.unparse(drops)[:100], 'the work is cut into slices of len(work) // workers items: whenever the worker count does not divide the number of items the last len(work) % workers items are never '
+                        'evaluated, so the scores written depend on the pool size')
+            elif data_use is not None:
+                st = data_use
+                while par.get(st) is not None and not isinstance(st, ast.stmt):
+                    st = par.get(st)
+                if not is_noise_stmt(st):
+                    chk.unsure('C09.3b', 'R10', f.site(data_use), ast.unparse(st).split('\n')[0][:100], 'a worker count takes part in the computation (not only in sizing the pool): whether the result is the same for every pool size is not decided by this rule')
+    chk.analysed['worker_count_reads'] = n_reads
+    if not any(o.oid == 'C09.3b' for o in chk.obs):
+        chk.ok('C09.3b', 'R10', 'outrank', f'{n_reads} read(s) of a worker count', 'a worker count only sizes the pool (or is logged): what is computed does not depend on it')
+
+
 # -- 4 ------------------------------------------------------------------------------------
 def seeds(repo, chk):
     root = repo.func(TR, 'outrank_task_conduct_ranking')
